@@ -450,12 +450,24 @@ def plan_spacing(plan, cfg, sched, ratio_cb=None, count_cb=None):
     return out
 
 
-def nf_regime(cfg, nf_vec, nf_ltf):
+def nf_regime(cfg, nf_vec, nf_ltf, ltf_plan=None):
     """Classify a >10 % difference in bin count between vectorised and iterative LTF by
-    mechanism (see DESIGN C04 / KNOWN_FINDINGS).  Returns None if within 10 %."""
+    mechanism (see DESIGN C04 / KNOWN_FINDINGS).  Returns None if within 10 %.
+
+    vec-coarse-grid: the lookup grid (10*Jdes points) has fewer than one point per five
+    iterative bins *in the region where the segment length still varies* (Lmin < L < N).  Where
+    L is clamped (to N or to Lmin) every grid point holds the same parameters, so the grid
+    density cannot matter there - a mismatch that needs those bins to reach the threshold is
+    not this mechanism."""
     if abs(nf_vec - nf_ltf) <= 0.1 * nf_ltf:
         return None
-    if 10 * int(cfg["Jdes"]) < 5 * nf_ltf:
+    if ltf_plan is not None:
+        L = np.asarray(ltf_plan["L"])
+        _, Lmin = eff_params(cfg, "ltf")
+        nf_var = int(np.sum((L > Lmin) & (L < int(cfg["N"]))))
+    else:
+        nf_var = nf_ltf
+    if 10 * int(cfg["Jdes"]) < 5 * nf_var:
         return "vec-coarse-grid"
     if abs(nf_vec - nf_ltf) == 1 and nf_ltf < 10:
         return "vec-nf-one-bin-small-plan"
